@@ -73,7 +73,7 @@ func (m *Machine) gExit(g *G) {
 		m.deadlock("goroutine exit")
 		return
 	}
-	i := m.choose("sched", len(rs))
+	i := m.pickDelay(rs, g)
 	next := rs[i]
 	m.cur = next
 	m.sched = append(m.sched, next.id)
@@ -127,7 +127,7 @@ func (m *Machine) block(ready func() bool, what string) {
 			}
 			panic(killG{})
 		}
-		i := m.choose("sched", len(rs))
+		i := m.pickDelay(rs, g)
 		rs[i].state = 0
 		m.switchTo(rs[i])
 		g.state = 0
@@ -153,11 +153,16 @@ func (m *Machine) preemptPoint() {
 	if len(rs) == 0 {
 		return
 	}
-	i := m.choose("sched", len(rs)+1)
+	rs = m.rotate(rs, m.cur)
+	n := m.opts.Preempt - m.preempts
+	if n > len(rs) {
+		n = len(rs)
+	}
+	i := m.choose("sched", n+1)
 	if i == 0 {
 		return
 	}
-	m.preempts++
+	m.preempts += i
 	next := rs[i-1]
 	next.state = 0
 	m.switchTo(next)
@@ -175,8 +180,8 @@ func (m *Machine) quiesce() {
 		if len(rs) == 0 {
 			return
 		}
-		i := m.choose("sched", len(rs))
 		me := m.cur
+		i := m.pickDelay(rs, me)
 		me.state = 1
 		me.what = "quiesce"
 		// ready only when nobody else can run
@@ -464,4 +469,43 @@ func (m *Machine) mutexRUnlock(p *value) {
 func (m *Machine) fatal(msg string) {
 	m.violationNow("fatal", "no-fatal", "fatal error: "+msg+" at "+m.where(), map[string]string{"fatal": msg})
 	panic(&abortPath{kind: "violation-stop", reason: "fatal error: " + msg})
+}
+
+// rotate orders candidates round-robin after goroutine g (deterministic default scheduler).
+func (m *Machine) rotate(rs []*G, g *G) []*G {
+	var after, before []*G
+	for _, r := range rs {
+		if r.id > g.id {
+			after = append(after, r)
+		} else {
+			before = append(before, r)
+		}
+	}
+	return append(after, before...)
+}
+
+// pickDelay: delay-bounded scheduling (Emmi, Qadeer, Rakamaric 2011). The default scheduler is
+// deterministic (round-robin among runnable goroutines); each deviation from it costs delays out of
+// the budget opts.Preempt. Returns the index into rs of the goroutine to run next.
+func (m *Machine) pickDelay(rs []*G, cur *G) int {
+	if len(rs) == 1 {
+		return 0
+	}
+	order := m.rotate(rs, cur)
+	n := m.opts.Preempt - m.preempts
+	if n > len(order)-1 {
+		n = len(order) - 1
+	}
+	k := 0
+	if n > 0 {
+		k = m.choose("sched", n+1)
+		m.preempts += k
+	}
+	pick := order[k]
+	for i, r := range rs {
+		if r == pick {
+			return i
+		}
+	}
+	return 0
 }
